@@ -32,7 +32,7 @@ from ..explorer import Step
 
 PROPERTY = "C01"
 ALPHABET = "profiles P1..P5 (see module docstring and PROFILES); deliveries: next frame, first 1 / 9 bytes of next frame, flush"
-QUICK_DEPTH = {"P4": 4, "P5": 4, "P1": 5, "P2": 5, "P3": 6, "P6": 6, "P7": 6}
+QUICK_DEPTH = {"P4": 4, "P5": 4, "P1": 5, "P2": 5, "P3": 6, "P6": 6, "P7": 6, "P8": 6}
 BOUNDS = {"quick": "profiles to depth %s, <=1 deviation (a raising call, or one window of non-lock-step delivery), two start states" % (sorted(QUICK_DEPTH.items()),), "thorough": "depth 7, <=2 deviations (or time budget, reported)"}
 C, S = P.C, P.S
 REQ = H.REQ_POST + [(b"X-Mixed", b" padded "), (b"accept", b"*/*")]
@@ -42,6 +42,7 @@ TRL = [(b"x-checksum", b"abc")]
 HEAD = [(b":method", b"HEAD"), (b":scheme", b"https"), (b":path", b"/h"), (b":authority", b"example.com")]
 RESPCL = H.RESP + [(b"content-length", b"5"), (b"x-a", b"1")]
 RESP304 = [(b":status", b"304"), (b"etag", b"xyz")]
+REQBIG = H.REQ_POST + [(b"x-big", b"B" * 20000), (b"accept", b"*/*")]
 N = P.norm
 
 
@@ -108,6 +109,13 @@ def calls():
     add("s:data2es", S, "send_data", (2, b"pushed"), {"end_stream": True}, [("data", 2, b"pushed", True)])
     add("c:set-iws-6", C, "update_settings", ({4: 6},), {}, [("settings", ((4, 6),))])
     add("c:incr2", C, "increment_flow_control_window", (10,), {"stream_id": 2}, [])
+    # P8: bulk - a request whose header block needs CONTINUATION frames, a response body that fills the client's windows
+    # exactly, acknowledgements of a part of it, more body
+    add("c:reqbig1", C, "send_headers", (1, REQBIG), {}, [hdr(1, "request", REQBIG, False)])
+    add("s:fill1", S, "fill", (1,), {}, [])
+    add("c:ack1-2000", C, "acknowledge_received_data", (2000, 1), {}, [])
+    add("c:ack1-40000", C, "acknowledge_received_data", (40000, 1), {}, [])
+    add("s:data1-2000", S, "send_data", (1, b"y" * 2000), {}, [("data", 1, b"y" * 2000, False)])
     return T
 
 
@@ -123,6 +131,7 @@ PROFILES = {
     "P5": ["c:req1", "s:resp1", "c:ping", "s:ping", "c:prio1", "c:req5prio", "s:altsvc", "s:altsvc1", "c:incr", "s:incr", "c:ack1",
            "s:ack1", "s:data1", "c:close", "s:close"],
     "P6": ["c:head1", "c:head1es", "c:trailers1", "c:end1", "s:info1", "s:resp1cl", "s:resp1cl-es", "s:resp1-304es", "s:end1", "s:trailers1"],
+    "P8": ["c:reqbig1", "c:req1", "s:resp1", "s:fill1", "c:ack1-2000", "c:ack1-40000", "s:data1-2000", "s:data1", "c:data1"],
     "P7": ["c:req1", "s:push1", "s:resp2", "s:data2", "s:data2es", "c:set-iws-down", "c:set-iws-6", "c:set-iws-up", "c:incr2", "s:set-mfs",
            "s:resp1es"],
 }
@@ -224,7 +233,33 @@ class Spec:
             st.window = True
         elif window:
             hold = True           # inside a window nothing is pumped until "flush"
-        o = H.call(st.conn[x], method, *args, **kw)
+        if method == "fill":
+            # macro: send DATA on the stream until the send window the library reports is used up exactly
+            sid = args[0]
+            conn = st.conn[x]
+            items = []
+            raw = b""
+            o = None
+            for _ in range(8):
+                try:
+                    w = conn.local_flow_control_window(sid)
+                except Exception:  # noqa: BLE001
+                    w = 0
+                n = min(w, conn.max_outbound_frame_size)
+                if n <= 0:
+                    break
+                o = H.call(conn, "send_data", sid, b"f" * n)
+                raw += o.raw
+                if o.kind == "raise":
+                    break
+                items.append(("data", sid, b"f" * n, False))
+            if o is None:
+                o = H.call(conn, "send_data", sid, b"f")      # nothing to fill: behaves like a send that must be refused
+            else:
+                o.raw = raw
+            method = "send_data"
+        else:
+            o = H.call(st.conn[x], method, *args, **kw)
         if o.kind == "raise":
             if o.raw:
                 bad("raising-call-emitted-bytes", "%s raised %s but emitted %s" % (base, o.exc_name, o.brief()), call=method)
